@@ -43,11 +43,12 @@ pub static DEF: CheckDef = CheckDef {
 fn families(t: Tier) -> Vec<(&'static str, u64)> {
     vec![
         ("program-topo", t.n(3_000, 66_822)),
-        ("program-dag-exact", t.n(5_000, 300_000)),
+        ("program-dag-exact", t.n(10_000, 300_000)),
         ("program-dag-smooth", t.n(3_000, 200_000)),
         ("program-readme", t.n(500, 20_000)),
-        ("history", t.n(2_000, 100_000)),
-        ("training", t.n(300, 10_000)),
+        ("program-toggles", t.n(4_000, 200_000)),
+        ("history", t.n(5_000, 100_000)),
+        ("training", t.n(800, 15_000)),
     ]
 }
 fn floors(_t: Tier) -> Vec<(&'static str, u64)> {
@@ -60,6 +61,8 @@ fn floors(_t: Tier) -> Vec<(&'static str, u64)> {
 }
 
 struct ProgOutcome {
+    /// ledger reading after every result was dropped and every gradient cleared, leaves still alive
+    mid: (isize, isize),
     probes: u64,
     probe_failures: Vec<(usize, String)>,
     passes: u64,
@@ -69,7 +72,7 @@ struct ProgOutcome {
 
 /// Build, differentiate, drop, probe. Allocates nothing that outlives the call except the small outcome.
 fn exercise(p: &Program, plan: &Plan) -> ProgOutcome {
-    let mut out = ProgOutcome { probes: 0, probe_failures: vec![], passes: 0, panicked: None, kept_gradients: 0 };
+    let mut out = ProgOutcome { mid: (0, 0), probes: 0, probe_failures: vec![], passes: 0, panicked: None, kept_gradients: 0 };
     let res = guard(|| {
         let mut handles: Vec<Option<Array>> = eval_corgi(p).into_iter().map(Some).collect();
         let mut kept: Vec<Array> = vec![];
@@ -96,6 +99,15 @@ fn exercise(p: &Program, plan: &Plan) -> ProgOutcome {
         for i in &plan.drop_order {
             handles[*i] = None;
         }
+        // residual footprint: with the results gone and the gradients handed back, only the leaves themselves may
+        // remain (no pending value, no counter-pinned node)
+        let nk = kept.len() as u64;
+        drop(kept);
+        for l in p.leaves() {
+            let _ = handles[l].as_ref().unwrap().replace_gradient();
+        }
+        invlog_reset(false);
+        let mid = ledger::live();
         let mut fails = vec![];
         let mut probes = 0;
         for l in p.leaves() {
@@ -107,13 +119,12 @@ fn exercise(p: &Program, plan: &Plan) -> ProgOutcome {
                 fails.push((l, m));
             }
         }
-        let nk = kept.len() as u64;
-        drop(kept);
-        (probes, fails, passes, nk)
+        (probes, fails, passes, nk, mid)
     });
     invlog_reset(false);
     match res {
-        Ok((pr, f, pa, nk)) => {
+        Ok((pr, f, pa, nk, mid)) => {
+            out.mid = mid;
             out.probes = pr;
             out.probe_failures = f;
             out.passes = pa;
@@ -133,7 +144,16 @@ struct Plan {
 
 fn run_program(ctx: &mut Ctx, fam: &str, k: u64, r: &mut Rng) {
     let sub = &fam["program-".len()..];
-    let p = c01::gen(ctx, sub, k, r);
+    let p = if sub == "toggles" {
+        // handles used while untracked and while tracked within one graph (start/stop_tracking, untracked() results)
+        let mut cfg = GenCfg::exact();
+        cfg.toggles = true;
+        cfg.untracked_eighths = 3;
+        cfg.max_ops = 9;
+        gen_program(r, &cfg)
+    } else {
+        c01::gen(ctx, sub, k, r)
+    };
     let rr = match eval_ref_plain(&p) {
         Some(x) => x,
         None => return,
@@ -162,6 +182,22 @@ fn run_program(ctx: &mut Ctx, fam: &str, k: u64, r: &mut Rng) {
     };
     // warm-up execution, then the measured one
     let _ = exercise(&p, &plan);
+    // footprint of the leaves alone (same allocations as the leaves of the program)
+    let leaves_only = {
+        let mut lp = Program::default();
+        for n in &p.nodes {
+            if let Node::Leaf { dims, vals, tracked } = n {
+                lp.leaf(dims, vals, *tracked);
+            }
+        }
+        let b = ledger::live();
+        let hs = eval_corgi(&lp);
+        let m = ledger::live();
+        // minus the vector that holds the handles
+        let vec_bytes = (hs.capacity() * std::mem::size_of::<Array>()) as isize;
+        drop(hs);
+        (m.0 - b.0 - 1, m.1 - b.1 - vec_bytes)
+    };
     let before = ledger::live();
     let o = exercise(&p, &plan);
     let after = ledger::live();
@@ -190,7 +226,16 @@ fn run_program(ctx: &mut Ctx, fam: &str, k: u64, r: &mut Rng) {
         );
     }
     if ledger::ENABLED {
-        ctx.count("ledger_checkpoints", 1);
+        ctx.count("ledger_checkpoints", 2);
+        // `handles` (a Vec of options) is still allocated at the mid point: one block of n * size_of::<Option<Array>>
+        let vec_bytes = (p.nodes.len() * std::mem::size_of::<Option<Array>>()) as isize;
+        let residual = (o.mid.0 - before.0 - 1 - leaves_only.0, o.mid.1 - before.1 - vec_bytes - leaves_only.1);
+        if residual != (0, 0) && !p.leaves().is_empty() {
+            ctx.violation(
+                &format!("C18|{}|residue-after-dropping-results", sub),
+                format!("with every result dropped and every gradient cleared, {} block(s) / {} byte(s) beyond the leaves themselves are still allocated (pending value or retained node)\nprogram: {}\npasses: {:?}", residual.0, residual.1, p.pretty(), plan.passes),
+            );
+        }
         if before != after {
             ctx.violation(
                 &format!("C18|{}|ledger-not-conserved", sub),
